@@ -7,7 +7,7 @@
     or long-term pre-key bundles, with one ([sym = false]) or both parties able to open the
     session. *)
 From Coq Require Import List NArith Bool.
-From PV Require Import Model.TwoParty Proofs.TwoParty Oracle.C37.
+From PV Require Import Model.TwoParty Proofs.TwoParty Oracle.C37 Proofs.C37Oracle.
 Import ListNotations.
 Local Open Scope N_scope.
 
@@ -54,3 +54,14 @@ Theorem C37_replay_rejected :
       exists e, step w (Replay p i) = (w, ORecvErr e).
 Proof. exact replay_rejected. Qed.
 Print Assumptions C37_replay_rejected.
+
+(** The property in oracle form: the boolean oracle that the check evaluates on the
+    implementation's observations ([Oracle/C37.v: check]: every in-order receive yields the
+    plaintext of the next message of its direction, every replay is rejected) is true on the
+    model's own observations for ANY interleaving. *)
+Theorem C37_model_passes_oracle :
+  forall (ot sym : bool) (evs : list event),
+    forallb in_order_event evs = true ->
+    check evs (snd (run (init_world ot sym) evs)) = true.
+Proof. exact model_passes_oracle. Qed.
+Print Assumptions C37_model_passes_oracle.
